@@ -28,6 +28,8 @@ class Module:
         self.source = source
         self.is_pkg = is_pkg
         self.tree = ast.parse(source, filename=path)
+        if name in CANONICALISE:
+            canonicalise_locals(self.tree)
         for node in ast.walk(self.tree):
             for child in ast.iter_child_nodes(node):
                 child._parent = node
@@ -98,6 +100,64 @@ class Module:
                 for a in node.names:
                     out[a.asname or a.name] = ("attr", mod, a.name)
         return out
+
+
+def canonicalise_locals(tree):
+    """Alpha-normalisation of role-bearing locals in the decode core, so that rules never depend on
+    how a maintainer named a local.  Roles (per function):
+      values     the dict that is built up and splatted into the object (`X = {}` ... `T(**X)`)
+      field      the target of `for X in fields(...)`
+      selection  a local bound from a dict comprehension
+      types_map  a local bound from `<T>._type_maps[...]`
+      size_field, buffer_field   the 2-tuple unpacked from `fields(...)`
+      error      the name bound by an `except ... as X` clause
+    A role is only renamed when its canonical name is free in that function."""
+    for fn in [n for n in ast.walk(tree) if isinstance(n, (ast.FunctionDef, ast.AsyncFunctionDef))]:
+        names = {n.id for n in ast.walk(fn) if isinstance(n, ast.Name)} | {a.arg for a in ast.walk(fn) if isinstance(a, ast.arg)}
+        mapping = {}
+
+        def want(old, new):
+            if old != new and new not in names and old not in mapping and new not in mapping.values():
+                mapping[old] = new
+
+        splat = {k.value.id for c in ast.walk(fn) if isinstance(c, ast.Call) for k in c.keywords
+                 if k.arg is None and isinstance(k.value, ast.Name)}
+        for n in ast.walk(fn):
+            if isinstance(n, ast.Assign) and len(n.targets) == 1:
+                t, v = n.targets[0], n.value
+                if isinstance(t, ast.Name):
+                    if isinstance(v, ast.Dict) and not v.keys and t.id in splat:
+                        want(t.id, "values")
+                    elif isinstance(v, ast.DictComp):
+                        want(t.id, "selection")
+                    elif isinstance(v, ast.Subscript) and isinstance(v.value, ast.Attribute) and v.value.attr == "_type_maps":
+                        want(t.id, "types_map")
+                    elif isinstance(v, ast.Call) and isinstance(v.func, ast.Name) and v.func.id == "next" and v.args \
+                            and isinstance(v.args[0], ast.GeneratorExp) and isinstance(v.args[0].generators[0].iter, ast.Call) \
+                            and isinstance(v.args[0].generators[0].iter.func, ast.Name) and v.args[0].generators[0].iter.func.id == "fields" \
+                            and isinstance(v.args[0].elt, ast.Name):
+                        want(t.id, "field")
+                elif isinstance(t, ast.Tuple) and len(t.elts) == 2 and all(isinstance(e, ast.Name) for e in t.elts) \
+                        and isinstance(v, ast.Call) and isinstance(v.func, ast.Name) and v.func.id == "fields":
+                    want(t.elts[0].id, "size_field")
+                    want(t.elts[1].id, "buffer_field")
+            elif isinstance(n, ast.For) and isinstance(n.target, ast.Name) and isinstance(n.iter, ast.Call) \
+                    and isinstance(n.iter.func, ast.Name) and n.iter.func.id == "fields":
+                want(n.target.id, "field")
+        handlers = [h for h in ast.walk(fn) if isinstance(h, ast.ExceptHandler) and h.name]
+        if handlers and len({h.name for h in handlers}) == 1:
+            want(handlers[0].name, "error")
+        if not mapping:
+            continue
+        for n in ast.walk(fn):
+            if isinstance(n, ast.Name) and n.id in mapping:
+                n.id = mapping[n.id]
+            elif isinstance(n, ast.ExceptHandler) and n.name in mapping:
+                n.name = mapping[n.name]
+    return tree
+
+
+CANONICALISE = ("tpmstream.io.binary.marshal",)
 
 
 class Project:
